@@ -70,8 +70,51 @@ def kinds(ctx: Ctx, rule="R-C18-KINDS") -> None:
         ctx.check(dotted(v) == f"DependencyKind.{want}", rule, clsq, f"{c.name}.__repid_dependency__ = DependencyKind.{want}", "declared kind",
                   f"{c.name}.__repid_dependency__ is {unparse(v) if v is not None else 'missing'}", instance=f"{c.name} kind")
     # get_dependency: direct -> the type itself, annotated -> first metadata entry
-    rets = [n for n in ast.walk(gd.node) if isinstance(n, ast.Return)]
-    ctx.check(len(rets) == 3, rule, gd, "get_dependency has the three outcomes (direct, annotated, None)", "three returns", f"get_dependency has {len(rets)} returns", instance="get_dependency shape")
+    g = ctx.cfg(gd)
+    rets = [n for n in g.nodes if n.kind == "return"]
+    tparam = [p_.arg for p_ in gd.params()][0]
+
+    def env(direct, annotated_origin, annotated_marker):
+        def fn(text, node):
+            if isinstance(node, ast.Compare) and isinstance(node.ops[0], ast.Eq):
+                cs = [x.value for x in (node.left, node.comparators[0]) if isinstance(x, ast.Constant)]
+                if cs == ["direct"]:
+                    return direct
+                if cs == ["annotated"]:
+                    return annotated_marker
+            if isinstance(node, ast.Compare) and isinstance(node.ops[0], ast.Is) and "Annotated" in (dotted(node.left), dotted(node.comparators[0])):
+                return annotated_origin
+            return None
+        return {"*k": fn}
+
+    def outcome(e_):
+        r_ = flow.reach_under(g, e_, flow.NORMAL_KINDS)
+        out = set()
+        for n in rets:
+            if n.id not in r_:
+                continue
+            v = n.ast.value
+            if v is None or C.is_const(v, None):
+                out.add("None")
+                continue
+            txt = C.utext(gd, v, calls="all")
+            for w_ in ast.walk(gd.node):  # `dep := t.__metadata__[0]` inside the test
+                if isinstance(w_, ast.NamedExpr) and isinstance(w_.target, ast.Name) and w_.target.id in C.names_in(v):
+                    txt += " " + unparse(w_.value)
+            if "__metadata__[0]" in txt:
+                out.add("first annotation")
+            elif tparam in C.names_in(v):
+                out.add("the type itself")
+            else:
+                out.add("other:" + txt[:40])
+        return sorted(out)
+
+    for (d_, o_, m_), want in (((True, False, False), ["the type itself"]), ((True, True, True), ["the type itself"]), ((False, True, True), ["first annotation"]),
+                               ((False, True, False), ["None"]), ((False, False, False), ["None"]), ((False, False, True), ["None"])):
+        got = outcome(env(d_, o_, m_))
+        ctx.check(got == want, rule, gd, f"get_dependency[direct={d_}, Annotated={o_}, annotated marker={m_}]", f"-> {want[0]}",
+                  f"get_dependency for a type with direct marker={d_}, Annotated origin={o_}, annotated marker on the first annotation={m_} returns {got} instead of {want}",
+                  instance=f"get_dependency[{d_},{o_},{m_}]")
 
 
 def inside_try(ctx: Ctx, rule="R-C18-INSIDE-TRY") -> None:
@@ -161,8 +204,19 @@ def declare(ctx: Ctx, rule="R-C18-DECLARE") -> None:
     p = ctx.func("repid.converter.PydanticConverter.__init__")
     cm = [c for c in ast.walk(p.node) if isinstance(c, ast.Call) and dotted(c.func) == "create_model"]
     ctx.require(len(cm) == 1, f"{p.qualname}: create_model call not found")
-    comps = [n for n in ast.walk(cm[0]) if isinstance(n, ast.DictComp)]
-    ok = len(comps) == 1 and any(isinstance(i, ast.Compare) and isinstance(i.ops[0], ast.NotIn) and dotted(i.comparators[0]) == "self.dependency_kwargs" for g_ in comps[0].generators for i in g_.ifs)
+    from .C08 import _model_fields
+
+    mf = _model_fields(p, cm[0])
+
+    def excludes_deps(gd):
+        while isinstance(gd, ast.UnaryOp) and isinstance(gd.op, ast.Not) and isinstance(gd.operand, ast.UnaryOp) and isinstance(gd.operand.op, ast.Not):
+            gd = gd.operand.operand
+        if isinstance(gd, ast.Compare) and isinstance(gd.ops[0], ast.NotIn) and dotted(gd.comparators[0]) == "self.dependency_kwargs":
+            return True
+        return isinstance(gd, ast.UnaryOp) and isinstance(gd.op, ast.Not) and isinstance(gd.operand, ast.Compare) and isinstance(gd.operand.ops[0], ast.In) \
+            and dotted(gd.operand.comparators[0]) == "self.dependency_kwargs"
+
+    ok = mf is not None and any(excludes_deps(gd) for gd in mf[3])
     ctx.check(ok, rule, p, "pydantic input model excludes dependency parameters", "if p.name not in self.dependency_kwargs", "the pydantic input model includes dependency parameters as payload fields",
               instance="pydantic model excludes dependencies")
 
@@ -171,7 +225,9 @@ def override(ctx: Ctx, rule="R-C18-OVERRIDE") -> None:
     c = ctx.prog.cls(DEPENDS)
     n = 0
     for m in c.methods.values():
-        g = ctx.cfg(m)
+        if m.name == "_update_subdependencies":
+            continue
+        g = ctx.icfg(m, exclude=("_update_subdependencies",))  # a shared `_set_fn` helper is part of __init__ / override
         stores = [s for s in g.nodes if s.kind == "store" and s.target == "self._fn"]
         for s in stores:
             n += 1
@@ -282,8 +338,9 @@ def chain(ctx: Ctx, f: FuncInfo, provider: str, rule="R-C18-FLOW") -> None:
         ok = dotted(t.slice) == nvar and dvar in C.names_in(val_x) and any(isinstance(c, ast.Call) and isinstance(c.func, ast.Attribute) and c.func.attr == "resolve" for c in ast.walk(val_x))
         ctx.check(ok, rule, f, f"mapping[{nvar}] = <{dvar}>.resolve(...) in {tag}", "each name mapped to its own provider's coroutine",
                   f"{tag}: {unparse(a)[:100]} does not map the dependency's name to its own provider's resolution", node=a, instance=f"{tag}: fill {unparse(t.slice)}")
-        ctxs = [k.value for c in ast.walk(a.value) if isinstance(c, ast.Call) for k in c.keywords if k.arg == "context"]
-        ok = bool(ctxs) and all(isinstance(x, ast.Name) for x in ctxs)
+        ctxs = [k.value for c in ast.walk(a.value) if isinstance(c, ast.Call) for k in c.keywords if k.arg == "context"] or \
+               [k.value for c in ast.walk(val_x) if isinstance(c, ast.Call) for k in c.keywords if k.arg == "context"]  # `constructed = dep.construct_as_dependency(context=...)` in a local
+        ok = bool(ctxs) and all(isinstance(x, (ast.Name, ast.Call)) for x in ctxs)
         ctx.check(ok, rule, f, f"resolver context handed on in {tag}", "same message context for the whole graph", f"{tag}: a provider is resolved without the resolver context",
                   node=a, instance=f"{tag}: context")
     if provider == "self._fn":
